@@ -1,3 +1,39 @@
-/// spec 5.4 Arguments (+ 5.6 Values): the arguments supplied at one site are valid for the argument definitions.
-/// Uninterpreted until unit `args` defines and proves it on check_arguments.
-pub uninterp spec fn args_valid<'src, S>(sch: &Schema<S, Pos>, vars: Option<&VariablesDefinition<'src>>, args: Option<&Arguments<'src>>, defs: Seq<InputValue<S, Pos>>) -> bool;
+//@ fragment spec_value.rs
+// ---- spec 5.4 Arguments
+pub open spec fn supplied<'a, 'src>(args: Option<&'a Arguments<'src>>) -> Seq<(crate::nitrogql_ast::base::Ident<'src>, crate::nitrogql_ast::value::Value<'src>)> {
+    match args { Some(a) => a.arguments@, None => Seq::empty() }
+}
+pub open spec fn argdef_names<S>(defs: Seq<InputValue<S, Pos>>) -> Seq<Seq<char>> { Seq::new(defs.len(), |j: int| tv(defs[j].name.inner)) }
+/// the supplied argument that is bound to a definition: the FIRST one carrying its name
+pub open spec fn is_first_named<'src>(sup: Seq<(crate::nitrogql_ast::base::Ident<'src>, crate::nitrogql_ast::value::Value<'src>)>, name: Seq<char>, i: int) -> bool {
+    0 <= i < sup.len() && sup[i].0.name@ == name && forall|k: int| 0 <= k < i ==> (#[trigger] sup[k]).0.name@ != name
+}
+pub open spec fn some_named<'src>(sup: Seq<(crate::nitrogql_ast::base::Ident<'src>, crate::nitrogql_ast::value::Value<'src>)>, name: Seq<char>) -> bool {
+    exists|i: int| 0 <= i < sup.len() && (#[trigger] sup[i]).0.name@ == name
+}
+/// one argument definition against the supplied arguments:
+///  5.4.2.1 Required Arguments: not supplied => the type is nullable or there is a default value;
+///  5.6.1 supplied => the value is valid for the declared type
+pub open spec fn argdef_satisfied<'src, S>(sch: &Schema<S, Pos>, vars: Option<&VariablesDefinition<'src>>,
+    sup: Seq<(crate::nitrogql_ast::base::Ident<'src>, crate::nitrogql_ast::value::Value<'src>)>, d: InputValue<S, Pos>) -> bool {
+    if some_named(sup, tv(d.name.inner)) {
+        forall|i: int| is_first_named(sup, tv(d.name.inner), i) ==> value_valid(sch, vars, (#[trigger] sup[i]).1, d.r#type)
+    } else {
+        !(d.r#type is NonNull) || d.default_value is Some
+    }
+}
+pub open spec fn argdefs_satisfied_upto<'src, S>(sch: &Schema<S, Pos>, vars: Option<&VariablesDefinition<'src>>,
+    sup: Seq<(crate::nitrogql_ast::base::Ident<'src>, crate::nitrogql_ast::value::Value<'src>)>, defs: Seq<InputValue<S, Pos>>, n: int) -> bool {
+    forall|j: int| 0 <= j < n ==> argdef_satisfied(sch, vars, sup, #[trigger] defs[j])
+}
+/// 5.4.1 Argument Names: the first m supplied arguments are all defined
+pub open spec fn supplied_defined_upto<'src, S>(sup: Seq<(crate::nitrogql_ast::base::Ident<'src>, crate::nitrogql_ast::value::Value<'src>)>, defs: Seq<InputValue<S, Pos>>, m: int) -> bool {
+    forall|i: int| 0 <= i < m ==> argdef_names(defs).contains((#[trigger] sup[i]).0.name@)
+}
+#[verifier::opaque]
+pub open spec fn args_valid<'src, S>(sch: &Schema<S, Pos>, vars: Option<&VariablesDefinition<'src>>, args: Option<&Arguments<'src>>, defs: Seq<InputValue<S, Pos>>) -> bool {
+    if defs.len() == 0 { args is None } else {
+        &&& supplied_defined_upto(supplied(args), defs, supplied(args).len() as int)
+        &&& argdefs_satisfied_upto(sch, vars, supplied(args), defs, defs.len() as int)
+    }
+}
